@@ -604,7 +604,11 @@ class MayRaise:
             for kw in n.keywords:
                 if kw.arg == 'errors' and isinstance(kw.value, ast.Constant):
                     mode = kw.value.value
-            if mode not in ('replace', 'ignore', 'backslashreplace', 'surrogateescape'):
+            if mode in ('surrogateescape', 'surrogatepass'):
+                # does not raise here, but hands out strings with lone surrogates: assumption A4 (text is well-formed, encoding
+                # it cannot raise) no longer holds for anything decoded this way -- the failure is charged to this call
+                self._add_implicit(out, 'builtins.UnicodeEncodeError', n)
+            elif mode not in ('replace', 'ignore', 'backslashreplace'):
                 self._add_implicit(out, 'builtins.UnicodeDecodeError', n)
             return
         if en in SAFE_EXT:
@@ -625,7 +629,11 @@ class MayRaise:
             for kw in n.keywords:
                 if kw.arg == 'errors' and isinstance(kw.value, ast.Constant):
                     mode = kw.value.value
-            if mode not in ('replace', 'ignore', 'backslashreplace', 'surrogateescape'):
+            if mode in ('surrogateescape', 'surrogatepass'):
+                # does not raise here, but hands out strings with lone surrogates: assumption A4 (text is well-formed, encoding
+                # it cannot raise) no longer holds for anything decoded this way -- the failure is charged to this call
+                self._add_implicit(out, 'builtins.UnicodeEncodeError', n)
+            elif mode not in ('replace', 'ignore', 'backslashreplace'):
                 self._add_implicit(out, 'builtins.UnicodeDecodeError', n)
             return
         if en in ('builtins.dict.pop',):
